@@ -56,27 +56,41 @@ def ceil_real(t):
     return -z3.ToInt(-t)
 
 
+fdiv = z3.Function('fdiv', z3.IntSort(), z3.IntSort(), z3.IntSort())     # Python a // b
+fmod = z3.Function('fmod', z3.IntSort(), z3.IntSort(), z3.IntSort())     # Python a % b
+
+
+def fdiv_facts(a, b):
+    q, r = fdiv(a, b), fmod(a, b)
+    return z3.And(a == q * b + r, z3.Implies(b > 0, z3.And(0 <= r, r < b)), z3.Implies(b < 0, z3.And(b < r, r <= 0)))
+
+
+def global_axioms(text):
+    """axioms added to a VC when the named symbols occur in it"""
+    out = []
+    if 'fdiv' in text or 'fmod' in text:
+        a, b = z3.Ints('ax_a ax_b')
+        out.append(z3.ForAll([a, b], z3.Implies(b != 0, fdiv_facts(a, b)), patterns=[fdiv(a, b), fmod(a, b)]))
+    return out
+
+
 def int_floordiv(ex, st, a, b):
-    """Python a // b on ints; b != 0 must be established by the caller"""
+    """Python a // b on ints; b != 0 must be established by the caller.  Constant positive divisors use z3's
+    native div (= floor there); symbolic divisors use the shared uninterpreted fdiv/fmod pair, whose defining
+    facts are added per occurrence (and as a global axiom for occurrences under quantifiers)."""
     if z3.is_int_value(b) and b.as_long() > 0:
-        return a / b        # z3 div is floor for positive divisors
-    q = z3.Int(uid('q'))
-    r = z3.Int(uid('r'))
-    st.assume(a == q * b + r)
-    st.assume(z3.Implies(b > 0, z3.And(0 <= r, r < b)))
-    st.assume(z3.Implies(b < 0, z3.And(b < r, r <= 0)))
-    return q
+        return a / b
+    if not st.spec:
+        st.assume(fdiv_facts(a, b))
+    return fdiv(a, b)
 
 
 def int_mod(ex, st, a, b):
     if z3.is_int_value(b) and b.as_long() > 0:
         return a % b
-    q = z3.Int(uid('q'))
-    r = z3.Int(uid('r'))
-    st.assume(a == q * b + r)
-    st.assume(z3.Implies(b > 0, z3.And(0 <= r, r < b)))
-    st.assume(z3.Implies(b < 0, z3.And(b < r, r <= 0)))
-    return r
+    if not st.spec:
+        st.assume(fdiv_facts(a, b))
+    return fmod(a, b)
 
 
 def pow2(n):
@@ -1064,6 +1078,8 @@ def m_sqrt(ex, st, args, kwargs, node):
     return res
 
 
+BUILTINS['floor'] = m_floor      # spec dialect
+BUILTINS['ceil'] = m_ceil
 EXTERNS['math.pi'] = VReal(z3.RealVal('3.141592653589793'))
 
 
